@@ -218,6 +218,10 @@ def run(rep):
     rep.clause("R-C08-siblings", "FastFixedIn and FastFixedOut arms agree on blend function, window and fractional argument")
     rep.not_decided += ["'to rounding' and the sinusoid error bound (numerical)", "stepping by 1/ratio is decided under C06 (R-C06-step)"]
     rep.trusted += ["syn parser", "sympy exact rational arithmetic"]
+    # everything else a working resampler needs (see rules/shares.py: a change that makes the resampler panic, drop frames, corrupt state on a
+    # rejected call or forward a trait-object call wrongly breaks this property as well)
+    import shares as _shares
+    _shares.complete(rep)
     return rep.finish(level="other", explanation=(
         "Exact algebra on the literal coefficient tables: each blend function is normalised to a polynomial over Q and shown to be the "
         "unique interpolant through its nodes (exactness on the polynomial space is a statement about the table, for every input), plus "
